@@ -204,3 +204,16 @@ void h_InlinedMemcmp_sign(void) {
   VASSERT((r == 0) == (want == 0) && (r < 0) == (want < 0), "C14.memcmp.sign: result has the sign of memcmp (first differing byte)");
   CANARY();
 }
+
+/* bounded: exact result of InlinedMemcmpEq for every s <= SMAX (every block count up to 4 and every tail), exact-size heap blocks */
+void h_InlinedMemcmpEq_exact(void) {
+  size_t s; __CPROVER_assume(32 <= s && s <= SMAX);
+  uint8_t *A = malloc(s), *B = malloc(s); __CPROVER_assume(A != NULL && B != NULL);
+  bool want = true;
+  for (size_t i = 0; i < SMAX; i++) if (i < s) { in_la[i] = A[i]; in_lb[i] = B[i]; }
+  for (size_t i = 0; i < SMAX; i++) if (i < s && in_la[i] != in_lb[i]) want = false;
+  in_s = s;
+  bool r = InlinedMemcmpEq(A, B, s);
+  VASSERT(r == want, "C14.memcmpeq.exact: true exactly when every one of the s bytes agrees");
+  CANARY();
+}
